@@ -639,6 +639,9 @@ func c13Random(r *Rng) C13Case {
 		}
 		if r.Chance(12) {
 			c.CT = "application/problem+json"
+		} else if r.Chance(20) {
+			// the declared media type, spelled with parameters
+			c.CT = Pick(r, []string{"application/json; charset=utf-8", "application/json;charset=UTF-8", "application/json; profile=x; charset=utf-8"})
 		}
 	}
 	// security
@@ -703,6 +706,8 @@ func c13Directed() []C13Case {
 			C13Case{CT: "application/json", Skip: skip, BodySchema: &GSchema{HasTypes: true, Types: []string{"object"}, Props: map[string]*GSchema{"n": intD(5)}}, Body: `{}`, Security: [][]string{{"undeclared"}, {"s1"}}, AuthOK: []string{"s1"}, AuthReads: true},
 			C13Case{CT: "application/json", Skip: skip, BodySchema: &GSchema{HasTypes: true, Types: []string{"object"}, Props: map[string]*GSchema{"n": intD(5)}}, Body: `{}`, Security: [][]string{{"s2"}}, AuthOK: []string{"s1"}, AuthReads: true},
 			C13Case{CT: "application/problem+json", Skip: skip, BodySchema: &GSchema{HasTypes: true, Types: []string{"object"}, Props: map[string]*GSchema{"n": intD(5)}}, Body: `{}`},
+			C13Case{CT: "application/json; charset=utf-8", Skip: skip, BodySchema: &GSchema{HasTypes: true, Types: []string{"object"}, Props: map[string]*GSchema{"n": intD(5)}}, Body: `{}`},
+			C13Case{CT: "application/json;charset=UTF-8", Skip: skip, BodySchema: &GSchema{HasTypes: true, Types: []string{"object"}, Props: map[string]*GSchema{"n": intD(5)}}, Body: `{"k":1}`},
 			C13Case{CT: "application/json", Skip: skip, Params: []C13Param{{In: "query", Name: "q", Schema: intD(10)}, {In: "header", Name: "X-H", Schema: &GSchema{HasTypes: true, Types: []string{"string"}, Default: "d"}}, {In: "cookie", Name: "ck", Schema: intD(3)}}},
 			C13Case{CT: "application/json", Skip: skip, Params: []C13Param{{In: "query", Name: "q", Schema: &GSchema{HasTypes: true, Types: []string{"array"}, Items: &GSchema{HasTypes: true, Types: []string{"integer"}}, Default: []any{1.0, 2.0}}}}},
 			C13Case{CT: "application/json", Skip: skip, Params: []C13Param{{In: "query", Name: "q", Explode: bp(true), Schema: &GSchema{HasTypes: true, Types: []string{"array"}, Items: &GSchema{HasTypes: true, Types: []string{"integer"}}, Default: []any{1.0, 2.0}}}}},
